@@ -37,7 +37,7 @@ type qPod struct {
 
 func qMakePod(w *pwWorld, i int, shapes, taints bool) *qPod {
 	name := "pending-" + strconv.Itoa(i)
-	q := &qPod{cpu: verifrt.Quantity(name+".cpu", 1, 16000)}
+	q := &qPod{cpu: verifrt.MilliQuantity(name+".cpu", 1, 16000)}
 	q.pod = w.addPod(name, "", q.cpu)
 	all := func(string) bool { return true }
 	q.zoneOK, q.ctOK = all, all
@@ -66,7 +66,11 @@ func qMakePod(w *pwWorld, i int, shapes, taints bool) *qPod {
 	}
 	if taints {
 		// the only taint in play is dedicated=x:NoSchedule
-		switch verifrt.Choice(name+".toleration", 0, 4) {
+		maxShape := 4
+		if i == 1 {
+			maxShape = verifrt.Bound("secondPodTolerationShapes", 1, 4) // quick tier: none or matching
+		}
+		switch verifrt.Choice(name+".toleration", 0, maxShape) {
 		case 1:
 			q.tolerates = true
 			q.pod.Spec.Tolerations = []corev1.Toleration{{Key: "dedicated", Operator: corev1.TolerationOpExists, Effect: corev1.TaintEffectNoSchedule}}
@@ -105,10 +109,10 @@ func VerifC01_PassPlacementsAreFeasible() {
 		}
 		return verifrt.Bool(l + ".available")
 	}
-	w.addType("it-a", verifrt.Quantity("it-a.cpu", 0, 16000), []pwOffer{{"zone-1", v1.CapacityTypeOnDemand, 2, av("it-a.z1")}, {"zone-2", v1.CapacityTypeSpot, 1, av("it-a.z2")}})
-	w.addType("it-b", verifrt.Quantity("it-b.cpu", 0, 16000), []pwOffer{{"zone-2", v1.CapacityTypeOnDemand, 4, av("it-b.z2")}, {"zone-1", v1.CapacityTypeSpot, 3, av("it-b.z1")}})
+	w.addType("it-a", verifrt.MilliQuantity("it-a.cpu", 0, 16000), []pwOffer{{"zone-1", v1.CapacityTypeOnDemand, 2, av("it-a.z1")}, {"zone-2", v1.CapacityTypeSpot, 1, av("it-a.z2")}})
+	w.addType("it-b", verifrt.MilliQuantity("it-b.cpu", 0, 16000), []pwOffer{{"zone-2", v1.CapacityTypeOnDemand, 4, av("it-b.z2")}, {"zone-1", v1.CapacityTypeSpot, 3, av("it-b.z1")}})
 
-	alloc := verifrt.Quantity("node.cpu", 0, 16000)
+	alloc := verifrt.MilliQuantity("node.cpu", 0, 16000)
 	node, _ := w.addNode("node-1", "pool-1", "it-a", v1.CapacityTypeOnDemand, "zone-1", pwList(alloc), pwInitialized)
 	nodeTainted := taints && verifrt.Choice("node.tainted", 0, 1) == 1
 	if nodeTainted {
